@@ -269,18 +269,26 @@ def runBoundLoop (bufs : List Buf) (losers : List Int) : Nat → Nat → Option 
 def MK.runBound (st : MK) : Option Row :=
   runBoundLoop st.bufs st.losers st.bufs.length ((st.winnerLeaf.toNat - 1) / 2) none
 
+/-- merge.go:760-770: the first `read()` of a buffer; on io.EOF the buffer is left as it is -/
+def readOr (b : Buf) : Buf := b.read.getD b
+
+/-- merge.go:761-765: input `i` delivered rows at initialisation -/
+def aliveAt (bufs : List Buf) (i : Nat) : Bool :=
+  match bufs[i]? with
+  | some b => b.read.isSome
+  | none => false
+
 /-- merge.go:750-777 -/
 def MK.initialize (st : MK) : MK :=
   let k := st.bufs.length
-  let rd := st.bufs.map Buf.read
-  let bufs := List.zipWith (fun b r => r.getD b) st.bufs rd
-  let leaves := (List.range k).map (fun i => if (rd.getD i none).isSome then (i : Int) else -1)
-  let count := (rd.filter Option.isSome).length
-  let st := { st with bufs := bufs, losers := List.replicate k 0, count := count, initialized := true }
+  let bufs := st.bufs.map readOr
+  let leaves := (List.range k).map (fun i => if aliveAt st.bufs i then (i : Int) else -1)
+  let count := (List.range k).countP (aliveAt st.bufs)
   if count > 0 then
-    let r := playInitialGames bufs leaves k 0 st.losers
-    { st with losers := r.2, winner := r.1, winnerLeaf := (k : Int) + r.1 }
-  else st
+    let r := playInitialGames bufs leaves k 0 (List.replicate k 0)
+    { st with bufs := bufs, losers := r.2, count := count, winner := r.1, winnerLeaf := (k : Int) + r.1,
+              initialized := true }
+  else { st with bufs := bufs, losers := List.replicate k 0, count := 0, initialized := true }
 
 /-- merge.go:838-841: length of the run inside the (truncated) window -/
 def runOf (bound : Option Row) (window : List Row) : Nat :=
